@@ -15,12 +15,15 @@ package main
 // "Exact" = the oracle judges s' and Generate(Extract(s')) alike on the instance; the pair is
 // emitted as an untagged `agree` op.  Anything else stays untagged and is a violation.
 
-import "strings"
+import (
+	"fmt"
+	"os"
+	"strings"
+)
 
-var c13RevDeleteOrder = []string{"additionalProperties", "required", "patternProperties", "propertyNames", "contains",
-	"enum", "const", "uniqueItems", "items", "minItems", "maxItems", "minProperties", "maxProperties", "properties",
-	"not", "oneOf", "anyOf", "allOf", "if", "multipleOf", "minimum", "maximum", "exclusiveMinimum", "exclusiveMaximum",
-	"minLength", "maxLength", "pattern", "type"}
+// only the keyword families for which the generator is KNOWN to be lossy are tried; a lossy round
+// trip that needs any other keyword deleted stays unexplained (= a violation)
+var c13RevDeleteOrder = []string{"additionalProperties", "required", "patternProperties", "propertyNames", "contains", "const-object"}
 
 func xDeleteKeyword(k string) func(s, i jv) (jv, jv) {
 	return func(s, i jv) (jv, jv) {
@@ -40,6 +43,16 @@ func xDeleteKeyword(k string) func(s, i jv) (jv, jv) {
 				return out
 			case "if":
 				return without(o, "if", "then", "else")
+			case "const-object":
+				// const / enum with an object value (close({"a"!: …}): required fields)
+				out := jobj{}
+				for _, e := range o {
+					if (e.k == "const" || e.k == "enum") && valueHasObject(e.v) {
+						continue
+					}
+					out = append(out, e)
+				}
+				return out
 			}
 			return without(o, k)
 		}), i
@@ -67,8 +80,8 @@ func (p *c13RevPending) add(cs *c13Case, class string, f func(s, i jv) (jv, jv),
 		}
 	}
 	s2, _ := f(cs.schema, maxInst)
-	changed := !sameJV(s2, cs.schema)
 	s2 = nestAllOf(s2)
+	changed := !sameJV(s2, cs.schema)
 	pc := &c13Case{schema: s2, schemaTxt: renderJV(s2)}
 	for _, k := range p.fail {
 		_, j2 := f(cs.schema, cs.insts[k])
@@ -92,6 +105,25 @@ func c13RevEvaluate(c *Cfg, o *c13Oracle, pend []*c13RevPending, probes []*c13Ca
 		return
 	}
 	c13RunWorkers(c, probes)
+	// a source that still has $defs / $ref gets the spurious root-level "type":"object" of its
+	// generated schema removed (the `definitions` cause, see (b0)); the class then says so
+	for _, p := range pend {
+		for _, a := range p.attempts {
+			if a.ans != nil || a.probe.importErr != "" || a.probe.genTxt == "" {
+				continue
+			}
+			if hasKw(a.probe.schema, "$defs") || hasKw(a.probe.schema, "$ref") {
+				if g, err := parseJV(a.probe.genTxt); err == nil {
+					if root, ok := g.(jobj); ok {
+						if t, ok := root.get("type"); ok && t == "object" {
+							a.probe.genTxt = renderJV(without(root, "type"))
+							a.class = "reverse-generate:definitions"
+						}
+					}
+				}
+			}
+		}
+	}
 	var lines []string
 	for _, p := range pend {
 		for _, a := range p.attempts {
@@ -143,7 +175,7 @@ func c13ConfirmReverse(c *Cfg, o *c13Oracle, cases []*c13Case) {
 	var pend []*c13RevPending
 	var probes []*c13Case
 	for _, cs := range cases {
-		if cs.judged == nil || cs.genTxt == "" {
+		if cs.judged == nil || cs.genTxt == "" || c13ReverseSkipped(cs) {
 			continue
 		}
 		var fail []int
@@ -157,6 +189,22 @@ func c13ConfirmReverse(c *Cfg, o *c13Oracle, cases []*c13Case) {
 			continue
 		}
 		cs.revClass = make([]string, len(cs.instTxt))
+		// (a0) the generated schema says exactly what the REAL importer says for this instance
+		// (Og == I) and the importer's divergence from the oracle has a confirmed root cause: the
+		// reverse divergence is that forward defect, rendered faithfully
+		var rest []int
+		for _, k := range fail {
+			if cs.class != nil && cs.class[k] != "" && cs.judged[k].og == cs.verdicts[k] {
+				cs.revClass[k] = "reverse-of:" + cs.class[k]
+				c.Count("confirmed:reverse-of:" + cs.class[k])
+			} else {
+				rest = append(rest, k)
+			}
+		}
+		fail = rest
+		if len(fail) == 0 {
+			continue
+		}
 		p := &c13RevPending{cs: cs, fail: fail}
 		// (a) the known importer defects removed
 		var applied []c13Xform
@@ -213,7 +261,6 @@ func c13ConfirmReverse(c *Cfg, o *c13Oracle, cases []*c13Case) {
 			if len(applied) > 0 {
 				p.add(cs, "reverse-generate:definitions", both, &probes)
 			}
-			p.base = both
 		}
 		pend = append(pend, p)
 	}
@@ -311,6 +358,7 @@ func c13ConfirmReverse(c *Cfg, o *c13Oracle, cases []*c13Case) {
 			for _, k := range c13Keywords(p.cs.schema) {
 				present[k] = true
 			}
+			present["const-object"] = hasCloser(p.cs.schema)
 			for _, k := range keys {
 				if present[k] {
 					del := xDeleteKeyword(k)
@@ -323,8 +371,7 @@ func c13ConfirmReverse(c *Cfg, o *c13Oracle, cases []*c13Case) {
 		c13RevEvaluate(c, o, next, probes)
 		return next
 	}
-	pend = stage(pend, c13RevDeleteOrder[:5])
-	pend = stage(pend, c13RevDeleteOrder[5:])
+	pend = stage(pend, c13RevDeleteOrder)
 	// several lossy keywords at once: the usual suspects deleted together (class: the first present)
 	{
 		var probes []*c13Case
@@ -341,8 +388,8 @@ func c13ConfirmReverse(c *Cfg, o *c13Oracle, cases []*c13Case) {
 			}
 			q := &c13RevPending{cs: p.cs, fail: left, base: p.base}
 			first := ""
-			for _, k := range c13RevDeleteOrder[:5] {
-				if first == "" && hasKw(p.cs.schema, k) {
+			for _, k := range c13RevDeleteOrder {
+				if first == "" && (hasKw(p.cs.schema, k) || (k == "const-object" && hasCloser(p.cs.schema))) {
 					first = k
 				}
 			}
@@ -350,7 +397,7 @@ func c13ConfirmReverse(c *Cfg, o *c13Oracle, cases []*c13Case) {
 				base := p.base
 				q.add(p.cs, "reverse-generate:"+first, func(s, i jv) (jv, jv) {
 					s, i = base(s, i)
-					for _, k := range c13RevDeleteOrder[:5] {
+					for _, k := range c13RevDeleteOrder {
 						s, i = xDeleteKeyword(k)(s, i)
 					}
 					return s, i
@@ -362,9 +409,19 @@ func c13ConfirmReverse(c *Cfg, o *c13Oracle, cases []*c13Case) {
 		pend = next
 	}
 	for _, p := range pend {
-		for _, k := range p.fail {
+		for idx, k := range p.fail {
 			if p.cs.revClass[k] == "" {
 				c.Count("unconfirmed-reverse-divergence")
+				if os.Getenv("C13_DEBUG") != "" {
+					fmt.Fprintf(os.Stderr, "UNCONFIRMED-REV %s ;; %s impl=%s os=%s og=%s\n", p.cs.schemaTxt, p.cs.instTxt[k], p.cs.verdicts[k], p.cs.judged[k].os, p.cs.judged[k].og)
+					for _, a := range p.attempts {
+						an := "-"
+						if len(a.ans) > idx {
+							an = a.ans[idx]
+						}
+						fmt.Fprintf(os.Stderr, "    %s err=%s ans=%s  %.300s ;; G %.300s\n", a.class, a.probe.importErr, an, a.probe.schemaTxt, a.probe.genTxt)
+					}
+				}
 			}
 		}
 	}
